@@ -1,0 +1,100 @@
+//go:build verif
+
+package translate
+
+import (
+	"context"
+	"expvar"
+
+	"github.com/specterops/dawgs/cypher/models/cypher"
+	"github.com/specterops/dawgs/cypher/models/pgsql"
+	"github.com/specterops/dawgs/cypher/models/pgsql/optimize"
+	"github.com/specterops/dawgs/cypher/models/walk"
+)
+
+// Verification hook for the /verif C02 check ("query optimisation never changes what a translated query
+// returns"). Compiled only with -tags verif; nothing in the production build refers to it. Read-only: it
+// drives the unchanged translator with the optimiser's contributions switched off.
+//
+// TranslateVariant translates cypherQuery like Translate, except that
+//   - applyRules == false: the optimiser's AST rewrite rules (pattern reordering, traversal reversal,
+//     predicate attachment) are not applied — the translator walks a copy of the query as written;
+//   - applyLowerings == false: the lowering plan is empty (no projection pruning, late path
+//     materialisation, pushdowns, direction selection, exact ranges, ...), and the two whole-query fast
+//     paths (count store, aggregate traversal count) are not taken.
+//
+// TranslateVariant(…, true, true) is Translate.
+func TranslateVariant(ctx context.Context, cypherQuery *cypher.RegularQuery, kindMapper pgsql.KindMapper, parameters map[string]any, graphID int32, applyRules, applyLowerings bool) (Result, error) {
+	var plan optimize.Plan
+
+	if applyRules {
+		optimizedPlan, err := optimize.Optimize(cypherQuery)
+		if err != nil {
+			return Result{}, err
+		}
+		plan = optimizedPlan
+	} else {
+		plan = optimize.Plan{Query: cypher.Copy(cypherQuery)}
+		if applyLowerings {
+			loweringPlan, err := optimize.BuildLoweringPlan(plan.Query, nil)
+			if err != nil {
+				return Result{}, err
+			}
+			plan.LoweringPlan = loweringPlan
+		}
+	}
+	if !applyLowerings {
+		plan.LoweringPlan = optimize.LoweringPlan{}
+		plan.PredicateAttachments = nil
+	}
+
+	translator := NewTranslator(ctx, kindMapper, parameters, graphID)
+	if applyLowerings {
+		if membershipAliases, err := collectIDMembershipAliases(plan.Query); err != nil {
+			return Result{}, err
+		} else {
+			translator.collectIDMembershipAliases = membershipAliases
+		}
+	}
+	translator.SetOptimizationPlan(plan)
+	translator.translation.Optimization.Rules = plan.Rules
+	translator.translation.Optimization.PredicateAttachments = plan.PredicateAttachments
+	if !plan.LoweringPlan.Empty() {
+		loweringPlan := plan.LoweringPlan
+		translator.translation.Optimization.LoweringPlan = &loweringPlan
+		translator.translation.Optimization.PlannedLowerings = loweringPlan.Decisions()
+	}
+
+	if applyLowerings {
+		if translated, err := translator.translateCountStoreFastPath(plan.Query, plan.LoweringPlan); err != nil {
+			return Result{}, err
+		} else if translated {
+			translator.recordSkippedLowerings()
+			return translator.translation, nil
+		}
+		if translated, err := translator.translateAggregateTraversalCount(plan.Query, plan.LoweringPlan); err != nil {
+			return Result{}, err
+		} else if translated {
+			translator.recordSkippedLowerings()
+			return translator.translation, nil
+		}
+	}
+
+	if err := walk.Cypher(plan.Query, translator); err != nil {
+		return Result{}, err
+	}
+
+	translator.recordSkippedLowerings()
+	return translator.translation, nil
+}
+
+// TranslateUnoptimized translates the query exactly as written: no rewrite rule, no lowering, no fast path.
+func TranslateUnoptimized(ctx context.Context, cypherQuery *cypher.RegularQuery, kindMapper pgsql.KindMapper, parameters map[string]any, graphID int32) (Result, error) {
+	return TranslateVariant(ctx, cypherQuery, kindMapper, parameters, graphID, false, false)
+}
+
+// The harness of /verif looks the hook up by name, so that it still compiles against a tree without this file
+// (the C02 suite then reports `hook-missing` instead of breaking every other check).
+func init() {
+	expvar.Publish("dawgs.verif.c02.TranslateVariant", expvar.Func(func() any { return TranslateVariant }))
+}
